@@ -1386,32 +1386,35 @@ def lines_dispatch(db, chk, cfg, rule="T.lines-dispatch"):
     (the vertex before was not inside); entering adds the crossing as the first vertex of a new piece, leaving adds the crossing to
     the current piece, passing right through adds the first crossing as a new piece and the second crossing after it."""
     from ..astq import if_parts
+    from ..evalx import _Continue, _Break
     f = db.one("RectClipLines64::ExecuteInternal")
-    site = None
-    for x in walk(f.body):
-        if x.get("kind") == "IfStmt":
-            cond, then, els = if_parts(x)
-            if els is not None and "Inside" in canon(cond) and any(
-                    y.get("kind") == "CXXMemberCallExpr" and db.callee(y)[0] == "Add" for y in walk(then)) and any(
-                    y.get("kind") == "CXXMemberCallExpr" and db.callee(y)[0] == "Add" for y in walk(els)) and any(
-                    y.get("kind") in ("CallExpr",) and db.callee(y)[0] == "GetIntersection" for y in walk(els)):
-                site = x
-                break
-    if site is None:
-        raise AnalysisBroken("crossing dispatch (`if (loc == Location::Inside) ... else if (prev != Location::Inside) ... else ...`) not found in RectClipLines64::ExecuteInternal")
+    # the main loop, the crossing computed in it, and the dispatch = everything in the loop body after the statement that holds that call
+    mainloop = None
+    for x in kids(f.body):
+        if x.get("kind") == "WhileStmt" and any(y.get("kind") in ("CallExpr", "CXXMemberCallExpr") and db.callee(y)[0] == "GetNextLocation" for y in walk(kids(x)[-1])):
+            mainloop = x
+    if mainloop is None:
+        raise AnalysisBroken("main loop of RectClipLines64::ExecuteInternal not found")
+    body = [x for x in kids(kids(mainloop)[-1]) if isinstance(x, dict) and x.get("kind")]
+    main = None
+    main_idx = None
+    for idx, st in enumerate(body):
+        cs = [y for y in walk(st) if y.get("kind") == "CallExpr" and db.callee(y)[0] == "GetIntersection"]
+        if cs:
+            main, main_idx = cs[0], idx
+            break
+    if main is None:
+        raise AnalysisBroken("the GetIntersection call of the main loop of RectClipLines64::ExecuteInternal was not found")
+    site_stmts = body[main_idx + 1:]
+    if not any(y.get("kind") == "CXXMemberCallExpr" and db.callee(y)[0] == "Add" for st in site_stmts for y in walk(st)):
+        raise AnalysisBroken("crossing dispatch (the Add calls after the boundary crossing was computed) not found in RectClipLines64::ExecuteInternal")
+    site = site_stmts[0]
     loc_enum = None
     for en, vals in db.enums.items():
         if set(("Left", "Top", "Right", "Bottom", "Inside")) <= set(vals):
             loc_enum = (en, vals)
     if loc_enum is None:
         raise AnalysisBroken("enum Location not found")
-    # the crossing computed before the dispatch: which end of the segment is it closest to?
-    main = None
-    for x in walk(f.body):
-        if x.get("kind") == "CallExpr" and db.callee(x)[0] == "GetIntersection" and not any(x is y for y in walk(site)):
-            main = x
-    if main is None:
-        raise AnalysisBroken("the GetIntersection call before the crossing dispatch was not found")
     margs = [_argtext(a) for a in db.call_args(main)]
     n = 0
     vals = list(loc_enum[1])
@@ -1440,7 +1443,10 @@ def lines_dispatch(db, chk, cfg, rule="T.lines-dispatch"):
                    "ip": "ip", "ip2": "ip2", "prev_pt": "prev_pt"}
             it = Interp(db, env, [], call_hook=hook)
             try:
-                it.exec(site)
+                for st in site_stmts:
+                    it.exec(st)
+            except (_Continue, _Break):
+                pass
             except Unsupported as e:
                 raise AnalysisBroken("cannot interpret the crossing dispatch of RectClipLines64::ExecuteInternal: %s" % e)
             adds = [c for c in calls if c[0] == "Add"]
@@ -1512,7 +1518,12 @@ def lines_shortcuts(db, chk, cfg, rule="T.rect"):
         if not over_results or "GetPath(" not in ci or not ("result.emplace_back" in ci or "result.push_back" in ci):
             problems.append("the pieces of a path are not appended to the result in the order of results_")
         if inner.get("kind") == "ForStmt":
-            problems.append("the loop over results_ is not a forward range-for (order of pieces)")
+            ik = kids(inner)
+            hdr_init, hdr_cond, hdr_inc = canon(ik[0]) if ik[0] else "", canon(ik[2]) if ik[2] else "", canon(ik[3]) if ik[3] else ""
+            forward = ("= 0" in hdr_init or "begin()" in hdr_init) and ("<" in hdr_cond or "!=" in hdr_cond) and ">" not in hdr_cond and \
+                ("++" in hdr_inc or "+= 1" in hdr_inc) and "--" not in hdr_inc
+            if not forward:
+                problems.append("the loop over results_ does not run forward from the first piece (order of pieces): for (%s; %s; %s)" % (hdr_init, hdr_cond, hdr_inc))
     chk.instance(rule, {"function": f.qual, "shortcuts": "empty rect -> nothing; bounds disjoint -> skip; pieces appended path by path in results_ order", "cfg": cfg},
                  ok=not problems)
     if problems:
